@@ -194,6 +194,9 @@ pub struct ProbOrdMinHash2<H> {
     seed_rng: ThreadRng,
     // seed used to modify sequences if necessary (as for testing, or see stability of results.)
     seed: u64,
+    // verification hook: (indices, values) of the store as they were before create_signature
+    #[cfg(probminhash_verif)]
+    verif_snapshot: (Vec<u64>, Vec<f64>),
 } // end of ProbOrdMinHash2
 
 impl<H> ProbOrdMinHash2<H>
@@ -226,6 +229,8 @@ where
             counter,
             seed_rng: rng.clone(),
             seed,
+            #[cfg(probminhash_verif)]
+            verif_snapshot: (Vec::new(), Vec::new()),
         }
     } // end new
 
@@ -301,6 +306,13 @@ where
                 nb_inserted += 1;
             }
         }
+        #[cfg(probminhash_verif)]
+        {
+            self.verif_snapshot = (
+                self.min_store.indices.clone(),
+                self.min_store.values.clone(),
+            );
+        }
         // we can update signature
         self.min_store.create_signature::<D, H>(data)
     } // end of hash_set
@@ -311,6 +323,25 @@ where
     pub fn change_rng_seed(&mut self) {
         self.min_store.change_wyhash_seed();
         self.seed = self.seed_rng.next_u64();
+    }
+
+    /// verification hook: for each position the l selected (data index, race value) pairs of the last hash_set call,
+    /// in increasing race value order (flattened, position k at [k*l, (k+1)*l) )
+    #[cfg(probminhash_verif)]
+    pub fn verif_selected(&self) -> (Vec<u64>, Vec<f64>) {
+        self.verif_snapshot.clone()
+    }
+
+    /// verification hook: read the instance seed
+    #[cfg(probminhash_verif)]
+    pub fn verif_seed(&self) -> u64 {
+        self.seed
+    }
+
+    /// verification hook: set the instance seed
+    #[cfg(probminhash_verif)]
+    pub fn verif_set_seed(&mut self, seed: u64) {
+        self.seed = seed;
     }
 } // end of impl ProbOrdMinHash2
 
